@@ -199,7 +199,7 @@ impl TransportConstraint {
             (next.place.location, latest_arrival.unwrap_or(next.place.time.end))
         } else {
             // open vrp
-            (target.place.location, target.place.time.end.min(actor.detail.time.end))
+            (target.place.location, actor.detail.time.end)
         };
 
         let arr_time_at_next = departure
